@@ -42,10 +42,10 @@ def group(grouped, kind, key, detail):
 
 def replay(ck, states, grouped, feats, behaviours, tier):
     """spec -> code: every done state into the real classes, compiled; interpreted (NUMBA_DISABLE_JIT) as well for
-    every state (quick) / every third state (thorough)"""
+    every second state (quick) / every third state (thorough)"""
     chunk = 250
     for mode in ("jit", "py"):
-        sel = states if (mode == "jit" or tier == "quick") else states[::3]
+        sel = states if mode == "jit" else states[::(2 if tier == "quick" else 3)]
         chunks = [sel[i: i + chunk] for i in range(0, len(sel), chunk)]
         res = pool.map_tasks("impl.c14", [{"op": "states", "states": c, "mode": mode} for c in chunks], mode=mode)
         for c, rr in zip(chunks, res):
@@ -104,6 +104,9 @@ def main():
     )
     if os.environ.get("VERIF_REPLAY"):
         return replay_file(ck, os.environ["VERIF_REPLAY"])
+    for fn in os.listdir(ck.wd):        # violation files of earlier runs would be misleading
+        if fn.startswith("violation-") and fn.endswith(".json"):
+            os.remove(os.path.join(ck.wd, fn))
     phase = {}
     t0 = time.time()
     # ---- 1. mutant specifications (binding demonstration) --------------------------------
@@ -207,7 +210,8 @@ def trace_part(ck):
     napi = 6 if tier == "quick" else 40
     tasks += [{"op": "programs", "api": True, "seed": ck.seed * 1000 + 500 + i, "index": i, "n": 6 if tier == "quick" else 8}
               for i in range(napi)]
-    res = pool.map_tasks("impl.c14", tasks, mode="jit")
+    # few processes: every worker pays the import of the whole application once
+    res = pool.map_tasks("impl.c14", tasks, mode="jit", nproc=min(env.NCPU, 6 if tier == "quick" else 12))
     events = []
     for t, rr in zip(tasks, res):
         if not rr["ok"]:
@@ -241,20 +245,19 @@ def trace_part(ck):
             x["out"]["acp"][i] = x["out"]["acp"][i] - 40
             bad.append(x)
             want_clauses.append("AcpIsCount")
-        if len(bad) == 2:
+        if len(bad) == 2 and e["c"] == 1 and e["out"]["mci"] == 0:     # one chain: the model admits 0 only
             x = json.loads(json.dumps(e))
-            x["burn"] = x["burn"] - 1 if x["burn"] > 0 else x["burn"] + 1
-            x["program"] = "corrupt-burn"
+            x["out"]["mci"] = 1                      # a single chain reported as incongruent
             bad.append(x)
-            want_clauses.append(None)
+            want_clauses.append("MciIsIncongruence")
             break
     tfb = os.path.join(ck.wd, "trace-corrupt.json")
     with open(tfb, "w") as fh:
         json.dump(bad, fh)
     t = tlc.run(SPEC, "TraceTraceSummary", "Trace.cfg", workers=1, extra_env={"TRACE_FILE": tfb})
     rej = [p for p in t.printed if "reject" in p]
-    if len(rej) < 2 or len(bad) < 2:
-        ck.machinery_failure("corrupted trace lines not rejected: %s of %d" % (rej, len(bad)))
+    if len(bad) < 3 or sorted(p["clause"] for p in rej) != sorted(want_clauses):
+        ck.machinery_failure("corrupted trace lines not rejected as expected: %s, wanted %s" % (rej, want_clauses))
     ck.note("corrupted_traces_rejected", len(rej))
 
 
